@@ -202,14 +202,15 @@ func pfx0(pfx string) string {
 }
 
 func usesExt(c *c12Case, variant string) bool {
-	if variant == "callback" {
-		return true
-	}
 	for _, b := range c.Prog {
 		for _, s := range b {
 			switch s.Op {
 			case "recover", "stop", "fatal", "dstop", "dfatal":
 				return true
+			case "call":
+				if variant == "callback" {
+					return true
+				}
 			}
 		}
 	}
@@ -234,12 +235,13 @@ func goProgram(c *c12Case, variant string, gc bool) *source {
 	w.ln(0, "package main")
 	w.ln(0, "")
 	pfx := ""
+	fpfx := ""
 	if gc {
+		// only the functions, named p<ID>_f<N> / p<ID>_main: the check assembles many programs into one
+		// file with the helpers xP / xR / xDo and a dispatching main
 		pfx = "x"
-		w.ln(0, `func xP(k int) { println(k) }`)
-		w.ln(0, `func xR(v any) { if v == nil { println(100) } else { println(100 + v.(int)) } }`)
-		w.ln(0, `func xDo(f func()) { f() }`)
-		w.ln(0, "")
+		fpfx = fmt.Sprintf("p%d_", c.ID)
+		w = &writer{}
 	} else if usesExt(c, variant) {
 		w.ln(0, `import "ext"`)
 		w.ln(0, "")
@@ -253,7 +255,7 @@ func goProgram(c *c12Case, variant string, gc bool) *source {
 		if variant == "method" {
 			return fmt.Sprintf("T(%d).F%d", g, g)
 		}
-		return fmt.Sprintf("f%d", g)
+		return fmt.Sprintf("%sf%d", fpfx, g)
 	}
 	kw := func(d bool) string {
 		if d {
@@ -271,7 +273,11 @@ func goProgram(c *c12Case, variant string, gc bool) *source {
 		}
 	case "callback":
 		call = func(w *writer, ind int, deferred bool, g int) int {
-			return w.ln(ind, fmt.Sprintf("%s%sDo(%s)", kw(deferred), pfx0(pfx), name(g)))
+			if deferred {
+				// a deferred function stays the deferred function itself (recover() must be called directly by it)
+				return w.ln(ind, "defer "+name(g)+"()")
+			}
+			return w.ln(ind, fmt.Sprintf("%sDo(%s)", pfx0(pfx), name(g)))
 		}
 	default:
 		call = func(w *writer, ind int, deferred bool, g int) int {
@@ -283,14 +289,14 @@ func goProgram(c *c12Case, variant string, gc bool) *source {
 			if variant == "method" {
 				w.ln(0, fmt.Sprintf("func (t T) F%d() {", f))
 			} else {
-				w.ln(0, fmt.Sprintf("func f%d() {", f))
+				w.ln(0, fmt.Sprintf("func %sf%d() {", fpfx, f))
 			}
 			emitBody(w, c, f, 1, src.lines, pfx, call)
 			w.ln(0, "}")
 			w.ln(0, "")
 		}
 	}
-	w.ln(0, "func main() {")
+	w.ln(0, fmt.Sprintf("func %smain() {", fpfx))
 	emitBody(w, c, 1, 1, src.lines, pfx, call)
 	w.ln(0, "}")
 	src.files = map[string]string{"main.go": w.b.String()}
@@ -495,6 +501,7 @@ func each(raw json.RawMessage, seed int64) []any {
 	o := map[string]any{"id": c.ID, "prog": c.Prog, "runs": runs}
 	if *flagGC {
 		o["gcsrc"] = goProgram(&c, "func", true).files["main.go"]
+		o["gcmain"] = fmt.Sprintf("p%d_main", c.ID)
 	}
 	if os.Getenv("C12_DUMP") != "" {
 		for _, v := range variants {
